@@ -1040,3 +1040,58 @@ func rulePARAMSPECIAL(c *Ctx, r *Report) {
 		r.ok(rule, "RenderParam|no-special-case", c.pos(dr.RenderParam.Pos()), "every operator goes through the table")
 	}
 }
+
+// SIB-ERR (C04): the parameterized renderer has no rejection of its own.
+func ruleSIBERR(c *Ctx, r *Report) {
+	const rule = "SIB-ERR"
+	r.doc(rule, "every constant error text raised in code that only the parameterized renderer reaches (RenderParam, the parameterized serialiser, range and like functions) is also raised somewhere in the code the inline renderer reaches: the parameterized path adds no rejection of its own (a limit, a hardening check), so it cannot fail on a query the inline path renders. Necessary only — that the conditions of the shared rejections agree is not decided")
+	dr := c.driverRoles()
+	if dr.Err != "" || dr.Render == nil || dr.RenderParam == nil {
+		r.bad(rule, "anchor", "-", "driver roles unresolved")
+		return
+	}
+	texts := func(f *ssa.Function) map[string]string {
+		out := map[string]string{}
+		for _, b := range f.Blocks {
+			for _, in := range b.Instrs {
+				call, ok := in.(*ssa.Call)
+				if !ok {
+					continue
+				}
+				switch calleeFullName(call) {
+				case "fmt.Errorf", "errors.New":
+					if s, isStr := constStringVal(c.resolve(call.Call.Args[0], nil)); isStr {
+						out[s] = c.instrPos(in)
+					}
+				}
+			}
+		}
+		return out
+	}
+	reachI := c.reachFrom([]*ssa.Function{dr.Render})
+	reachP := c.reachFrom([]*ssa.Function{dr.RenderParam})
+	inline := map[string]bool{}
+	for f := range reachI {
+		if inModule(f) {
+			for s := range texts(f) {
+				inline[s] = true
+			}
+		}
+	}
+	n := 0
+	for _, f := range sortedFuncs(reachP) {
+		if !inModule(f) || reachI[f] {
+			continue
+		}
+		for s, pos := range texts(f) {
+			n++
+			key := fmt.Sprintf("%s|%q", fnName(f), s)
+			if inline[s] {
+				r.ok(rule, key, pos, "the inline path raises the same error")
+			} else {
+				r.bad(rule, key, pos, fmt.Sprintf("%s, which only the parameterized renderer reaches, raises %q, and nothing the inline renderer reaches does: a query can render inline and fail parameterized", fnName(f), s))
+			}
+		}
+	}
+	r.ok(rule, "texts-examined", "-", fmt.Sprintf("%d constant error texts on the parameterized side examined", n))
+}
